@@ -466,6 +466,32 @@ static void build_alphabet(bool reduced)
 					h->cls = CL_NONE; /* depends on the protocol position: decided by the run */
 			}
 		}
+	/* (1b) length fields just beyond the maximum with the WHOLE promised body delivered (a bound that is off by
+	 * a few bytes only shows when the bytes really arrive) */
+	{
+		static const int otypes[] = {PT_CACHE_RESPONSE, PT_IPV4, PT_EOD, PT_ERROR};
+		static const uint32_t olens[] = {3249, 3256, 3257};
+
+		for (unsigned int ti = 0; ti < 4; ti++)
+			for (unsigned int li = 0; li < 3; li++) {
+				int type = otypes[ti];
+				struct hpdu *h = alpha_new("type%d v1 len=%u with all %u body bytes delivered%s", type, olens[li], olens[li] - 8,
+							   type == PT_ERROR ? " (nested lengths consistent)" : "");
+
+				pdu_hdr(&h->b, 1, type, type == PT_ERROR ? EC_INTERNAL : SESSION, olens[li]);
+				if (type == PT_ERROR) {
+					by_u32(&h->b, 0); /* no encapsulated PDU */
+					by_u32(&h->b, olens[li] - 16); /* the text fills the rest */
+					for (uint32_t k = 0; k < olens[li] - 16; k++)
+						by_u8(&h->b, 'x');
+					h->cls = CL_ERROR_PDU;
+				} else {
+					for (uint32_t k = 0; k < olens[li] - 8; k++)
+						by_u8(&h->b, 0);
+					h->cls = CL_BADLEN;
+				}
+			}
+	}
 	if (reduced)
 		return;
 	/* (2) prefix PDUs with hostile field values */
@@ -1635,6 +1661,20 @@ static void run_resp_cases(void)
 					6,		7,		8,		9,		10,		11,
 					12,		13,		Y_FLAGS2,	Y_BADLEN};
 	int nsym = BULK ? (int)(sizeof(bulk_syms) / sizeof(bulk_syms[0])) : small ? 10 : Y__N;
+	/* --syms=a,b,c: an explicit symbol list (e.g. the router-key symbols mixed with a few prefix ones) */
+	static int custom_syms[Y__N];
+	const char *cs = v_arg("syms", NULL);
+	bool custom = false;
+
+	if (cs) {
+		nsym = 0;
+		for (const char *q = cs; *q && nsym < Y__N;) {
+			custom_syms[nsym++] = (int)strtol(q, (char **)&q, 10);
+			if (*q == ',')
+				q++;
+		}
+		custom = true;
+	}
 	long idx = 0;
 	const char *rp = v_arg("replay", NULL);
 	long long only = -1;
@@ -1662,7 +1702,10 @@ static void run_resp_cases(void)
 						RC.n = n;
 						RC.term = term;
 						for (int i = 0; i < n; i++) {
-							RC.sym[i] = BULK ? bulk_syms[cc % nsym] : small ? small_syms[cc % nsym] : (int)(cc % nsym);
+							RC.sym[i] = custom ? custom_syms[cc % nsym] :
+								    BULK ? bulk_syms[cc % nsym] :
+								    small ? small_syms[cc % nsym] :
+									    (int)(cc % nsym);
 							cc /= nsym;
 						}
 						RC_IDX = idx;
